@@ -113,24 +113,16 @@ func randBytes(rng *rand.Rand, n int) []byte {
 func hashOf(h chainhash.Hash) [32]byte { return [32]byte(h) }
 
 func runMerkle(c *vrun.Ctx) error {
-	states, err := model(c, "Merkle", 3, []string{"Group", "Pick"})
-	if err != nil {
-		return err
-	}
 	st := newStats()
 	rng := c.Rand("merkle-txs")
 	pool := newTxPool(rng, 40)
-	// blob tables published by the commit groups: (ntx, v) -> terms
+	// blob tables published by the commit groups: (ntx, v) -> terms; a group
+	// state precedes its cases in the dump
 	blobs := map[string]tla.Value{}
-	for _, s := range states {
-		if s["case"].F("kind").Str() == "group" && s["expect"].Has("blobs") {
-			blobs[fmt.Sprintf("%d/%d", s["expect"].F("ntx").Int(), s["expect"].F("v").Int())] = s["expect"].F("blobs")
-		}
-	}
 	var fe firstErr
 	seed := c.Seed
-	c.Parallel(len(states), func(i int) {
-		s := states[i]
+	bt := &batcher{c: c, size: 4000}
+	bt.work = func(i int, s tla.State) {
 		cs, ex := s["case"], s["expect"]
 		switch cs.F("kind").Str() {
 		case "tree":
@@ -150,7 +142,22 @@ func runMerkle(c *vrun.Ctx) error {
 			}
 			fe.set(checkCommit(c, rand.New(rand.NewSource(seed*1000003+int64(i))), cc, tb, ex))
 		}
+	}
+	err := model(c, "Merkle", 3, []string{"Group", "Pick"}, func(s tla.State) error {
+		if s["case"].F("kind").Str() == "group" {
+			if s["expect"].Has("blobs") {
+				bt.flush() // no worker reads the table while it is written
+				blobs[fmt.Sprintf("%d/%d", s["expect"].F("ntx").Int(), s["expect"].F("v").Int())] = s["expect"].F("blobs")
+			}
+			return nil
+		}
+		bt.add(s)
+		return fe.err
 	})
+	if err != nil {
+		return err
+	}
+	bt.flush()
 	if fe.err != nil {
 		return fe.err
 	}
